@@ -18,7 +18,7 @@ ASSUMPTIONS = ["hot sources are plain Subjects: what a source emits after its ow
                "zip completes when all inputs have completed (crate convention, DESIGN 1.2); the trigger's own terminal does not end take_until/skip_until/sample",
                "subscription order of cold sources is the crate's (source first, then the others in order; trigger before stream)"]
 
-SPEC_OPS = ["merge", "zip", "amb", "take_until", "skip_until", "sample", "combine_latest", "sequence_equal"]
+SPEC_OPS = ["merge", "zip", "amb", "take_until", "skip_until", "sample", "concat", "on_error_resume_next", "combine_latest", "sequence_equal"]
 
 
 def nontrivial(sc, ob, verdict):
